@@ -137,6 +137,20 @@ def run_trees(ctx, run_tree, *, n_random, max_atoms, unary_p=0.3, small_frac=1.0
             break
         tree = gen_tree(rnd, cfg, max_atoms, closure, unary_p)
         run_tree(tree)
+        if rnd.random() < 0.3:
+            # a compound combined with one of its OWN direct children (absorption shapes: X | p, p & X ...)
+            kids = []
+            with MM.oracle():
+                try:
+                    v = MW.build(tree)
+                    if hasattr(v, "markers") and len(v.markers) >= 2:
+                        kids = [str(c) for c in v.markers[:3] if str(c) and "<empty>" not in str(c)]
+                except Exception:  # noqa: BLE001
+                    kids = []
+            for ktext in kids:
+                for op in ("or", "and"):
+                    run_tree([op, tree, ["m", ktext]])
+                    run_tree([op, ["m", ktext], tree])
         if rnd.random() < 0.35:
             # operands that are themselves EmptyMarker / AnyMarker, on either side of either operator
             for special in (["empty"], ["any"]):
